@@ -234,7 +234,12 @@ func (g *Gen) Next() []string {
 		}
 		return []string{word("DEL", r), k, id}
 	case 12:
-		return []string{word("PDEL", r), k, g.pick([]string{"*", "a*", "?", "b", "[a-b]*", "c?", "*1"})}
+		pats := []string{"*", "a*", "?", "b", "[a-b]*", "c?", "*1"}
+		if g.Rich {
+			// escaped metacharacters: the pattern names ONE id that contains *, ?, [ or \
+			pats = append(pats, `a\*`, `a\?`, `\[x\]`, `a\\b`, `a\**`, `id\ with*`, `\a`)
+		}
+		return []string{word("PDEL", r), k, g.pick(pats)}
 	case 13:
 		return []string{word("DROP", r), k}
 	case 14:
@@ -275,6 +280,9 @@ func (g *Gen) Next() []string {
 	case 27:
 		return []string{"TTL", k, id}
 	case 28:
+		if g.Rich && r.Intn(2) == 0 {
+			return []string{"KEYS", g.pick([]string{`k\*`, `k\?x`, `\[k\]`, `k\**`, `[kK]1`, `k[^1]*`})}
+		}
 		return []string{"KEYS", g.pick([]string{"*", "k*", "k?", "k1"})}
 	case 29:
 		return []string{"SCAN", k}
@@ -286,6 +294,9 @@ func (g *Gen) Next() []string {
 		}
 		return []string{"JGET", k, id, g.pick([]string{"p", "q", "type"})}
 	case 32:
+		if g.Rich && r.Intn(2) == 0 {
+			return []string{"SCAN", k, "MATCH", g.pick([]string{`a\*`, `a\?`, `\[x\]`, `a\\b`, `[a-b]?`, `*\**`}), "IDS"}
+		}
 		return []string{"SCAN", k, "MATCH", g.pick([]string{"a*", "*", "?", "b"}), "IDS"}
 	default:
 		return []string{"GET", k, id, "WITHFIELDS"}
